@@ -439,3 +439,28 @@ Definition out_values (outs : list output) : list N := map o_value outs.
 (** an output that does not stop the loop by itself: beneficial, let through, or unknown *)
 Definition quiet (warn : otag -> bool) (o : output) : Prop :=
   match effect warn o with EErr _ | EPanic => False | _ => True end.
+
+(** * MemoApprover (vls-protocol-signer/src/approver.rs): explicit approvals, used once
+
+    [approve] replaces the memorized approvals; every on-chain request drains them all and is
+    approved iff the very transaction (identity: inputs, outputs, locktime, version — [==] on
+    [Transaction]) was among them, otherwise the delegate decides.  Transactions enter as
+    identities. *)
+Inductive mop :=
+| MSet (txs : list N)    (* MemoApprover::approve(vec![Approval::Onchain(tx), ...]) *)
+| MAsk (tx : N).         (* approve_onchain(tx, ..) *)
+
+Definition mstep (delegate : N -> bool) (memo : list N) (o : mop) : list N * option bool :=
+  match o with
+  | MSet txs => (txs, None)
+  | MAsk tx => ([], Some (existsb (N.eqb tx) memo || delegate tx))
+  end.
+
+Fixpoint mrun (delegate : N -> bool) (memo : list N) (ops : list mop) : list N * list bool :=
+  match ops with
+  | [] => (memo, [])
+  | o :: r =>
+      let '(m1, a) := mstep delegate memo o in
+      let '(m2, answers) := mrun delegate m1 r in
+      (m2, match a with Some b => b :: answers | None => answers end)
+  end.
